@@ -1,43 +1,51 @@
 /-
-  Proofs.C01 — helper lemmas and the proofs behind Props/C01.lean.
+  Proofs.C01 — the proofs behind Props/C01.lean.
+
+  The helper lemmas live in
+    Proofs/C01Basic.lean   connectives, the candidate loop, the unconditional laws
+    Proofs/C01Values.lean  induction on values, hereditary predicates, Python `==` vs BSON equality
+    Proofs/C01Leaf.lean    each leaf test of the matcher against the oracle's leaf predicate
+    Proofs/C01Cond.lean    one condition `path: c` of D
+    Proofs/C01Main.lean    induction on the filter
 -/
 import Spec.MatchDomain
+import Proofs.C01Main
 
 namespace MongoModel.Proofs.C01
 open MongoModel MongoModel.Spec
 
 theorem and_is_conj (qs : List Val) (d : Val) (bs : List Bool)
-    (h : qs.map (applyVal · d) = bs.map .ok) : allApply qs d = .ok (bs.all id) := by
-  sorry
+    (h : qs.map (applyVal · d) = bs.map .ok) : allApply qs d = .ok (bs.all id) :=
+  C01Lemmas.and_is_conj qs d bs h
 
 theorem or_is_disj (qs : List Val) (d : Val) (bs : List Bool)
-    (h : qs.map (applyVal · d) = bs.map .ok) : anyApply qs d = .ok (bs.any id) := by
-  sorry
+    (h : qs.map (applyVal · d) = bs.map .ok) : anyApply qs d = .ok (bs.any id) :=
+  C01Lemmas.or_is_disj qs d bs h
 
 theorem nor_is_neg_disj (qs : List Val) (d : Val) (bs : List Bool)
-    (h : qs.map (applyVal · d) = bs.map .ok) : norApply qs d = .ok (!(bs.any id)) := by
-  sorry
+    (h : qs.map (applyVal · d) = bs.map .ok) : norApply qs d = .ok (!(bs.any id)) :=
+  C01Lemmas.nor_is_neg_disj qs d bs h
 
 theorem ne_eq_not_eq (key : String) (v d : Val) :
-    applyKey (.doc [("$ne", v)]) key d = (applyKey (.doc [("$eq", v)]) key d).map (!·) := by
-  sorry
+    applyKey (.doc [("$ne", v)]) key d = (applyKey (.doc [("$eq", v)]) key d).map (!·) :=
+  C01Lemmas.ne_eq_not_eq key v d
 
 theorem nin_eq_not_in (key : String) (v d : Val) :
-    applyKey (.doc [("$nin", v)]) key d = (applyKey (.doc [("$in", v)]) key d).map (!·) := by
-  sorry
+    applyKey (.doc [("$nin", v)]) key d = (applyKey (.doc [("$in", v)]) key d).map (!·) :=
+  C01Lemmas.nin_eq_not_in key v d
 
 theorem not_eq_neg (key : String) (gs : Fields) (d : Val) (cs : List (Option Val))
     (hc : candsKey key d = .ok cs) (hne : cs ≠ [])
     (hk : gs.all (fun kv => operatorMapKeys.contains kv.1 || logicalKeys.contains kv.1) = true) :
-    applyKey (.doc [("$not", .doc gs)]) key d = (applyKey (.doc gs) key d).map (!·) := by
-  sorry
+    applyKey (.doc [("$not", .doc gs)]) key d = (applyKey (.doc gs) key d).map (!·) :=
+  C01Lemmas.not_eq_neg key gs d cs hc hne hk
 
 theorem null_eq_missing (key : String) (d : Val) (h : candsKey key d = .ok [none]) :
-    applyKey .null key d = .ok true := by
-  sorry
+    applyKey .null key d = .ok true :=
+  C01Lemmas.null_eq_missing key d h
 
 theorem matches_eq_spec (f d : Val) (h : inD f d = true) :
-    filterApplies f d = specMatches f d := by
-  sorry
+    filterApplies f d = specMatches f d :=
+  C01Lemmas.matches_eq_spec f d h
 
 end MongoModel.Proofs.C01
